@@ -40,7 +40,8 @@ var propSpecs = map[string]*PropSpec{
 	"C09": {ID: "C09", Pkgs: []string{"./benchproc"}, BoundedChecks: []boundedSpec{
 		{"benchproc", "keyorder", "the documented per-field orders against reference semantics (incl. the fuzzy number parser, which is only under a determinism assumption), first-observation ranks of .config sub-fields, the flattened-field cache, and the order axioms / arrangement independence of SortKeys on concrete key sets"}}},
 	"C10": {ID: "C10", Pkgs: []string{"./benchunit"}},
-	"C11": {ID: "C11", Pkgs: []string{"./internal/stats"}},
+	"C11": {ID: "C11", Pkgs: []string{"./internal/stats"}, BoundedChecks: []boundedSpec{
+		{"internal/stats", "utest", "U statistic, exact one- and two-sided p-values, PMF/CDF of the U distribution against brute-force enumeration of label assignments; mathChoose against big integers; the normal approximation evaluated independently; error cases — stands in for UDist.p / makeUmemo (combinatorial recurrences) and the rank-sum loop, which are outside deductive reach"}}},
 	"C12": {ID: "C12", Pkgs: []string{"./internal/stats"}},
 	"C13": {ID: "C13", Pkgs: []string{"./benchmath"}, BoundedChecks: []boundedSpec{
 		{"benchmath", "compare", "AssumeNothing.Compare on all pairs of small samples: both sizes, p in [0,1], symmetric, invariant under reordering and common rescaling, equal to the exact permutation p-value for untied samples, threshold carried — the statistical content lives in the external module go-moremath and is outside deductive reach"}}},
